@@ -19,7 +19,7 @@ from concurrent.futures import ProcessPoolExecutor, as_completed
 from . import kernel
 
 VERIF = os.path.dirname(os.path.dirname(os.path.abspath(__file__)))
-EVIDENCE_DIR = os.path.join(VERIF, 'evidence')
+EVIDENCE_DIR = os.environ.get('BITSIM_EVIDENCE_DIR') or os.path.join(VERIF, 'evidence')    # (development: runs against a scratch tree write elsewhere)
 REPLAY_DIR = os.path.join(VERIF, 'replays')
 KNOWN_FILE = os.path.join(VERIF, 'known_findings.txt')
 
